@@ -175,6 +175,7 @@ structure Stack where
   refreshLog : List (Addr × SvcKey × Nat × Nat) := []   -- ghost: (source, service, time, ttl) of every TimedStore.refresh of found_services
   armLog : List (Cb × Nat × Nat) := []           -- ghost: (expiry callback, time, ttl) of every TimedStore.refresh that stores an entry (both stores)
   offLog : List (Nat × OEv × Nat) := []          -- ghost: (instance, event, time) of every start / stop of an instance and of every offer / StopOffer it hands to queue_send
+  ansLog : List (Nat × Addr × Nat × Nat) := []   -- ghost: (instance, requester, time, delay) of every deferred answer to a multicast FindService
   findMarks : List (Nat × Nat) := []             -- ghost: (find task, time) of its creation and of every round step it runs
   subMarks : List (Option Nat × Nat) := []       -- ghost: (none, time) of every subscriber start; (some n, time) of every refresh round, run by subscribe task n
   sendLog : List (Dest × (Bool × Nat)) := []     -- ghost: every (destination, (reboot flag, session id)) send_sd drew from the session storage
@@ -477,13 +478,16 @@ def answering (s : Stack) (e : SDEntry) : List Nat :=
     | some x => x.canAnswer && (match x.service.matchesFind e with | .ok b => b | _ => false)
     | none => false)
 
+/-- ghost: note that instance i will answer requester a after delay d -/
+def logAnswer (s : Stack) (i : Nat) (a : Addr) (d : Nat) : Stack := { s with ansLog := s.ansLog ++ [(i, a, s.loop.now, d)] }
+
 /-- `ServiceAnnouncer.handle_findservice(entry, addr, received_over_multicast)` -/
 def handleFind (s : Stack) (e : SDEntry) (a : Addr) (mc : Bool) : Stack :=
   let matching := s.answering e
   if matching.isEmpty then s else
   if mc then
     let r := s.draw s.tm.reqRespDelayMin s.tm.reqRespDelayMax
-    matching.foldl (fun s i => (s.callLater r.2 (.sendOfferTo i a)).1) r.1
+    matching.foldl (fun s i => ((s.logAnswer i a r.2).callLater r.2 (.sendOfferTo i a)).1) r.1
   else matching.foldl (fun s i => s.callSoon (.sendOfferTo i a)) s
 
 /-- `TimedStore._expired` for a subscription -/
